@@ -8,10 +8,14 @@ use crate::subjects::{catalogue, Subject};
 
 pub mod bytesgen;
 pub mod corrupt;
+pub mod frames;
+pub mod sinks;
+pub mod skip;
+pub mod stacks;
 pub mod wire;
 
 pub fn all() -> Vec<&'static dyn Scenario> {
-    vec![&wire::Wire, &corrupt::Corrupt, &corrupt::CorruptSweep]
+    vec![&wire::Wire, &corrupt::Corrupt, &corrupt::CorruptSweep, &stacks::Stacks, &stacks::Count, &skip::Skip, &frames::Frames, &sinks::Sinks]
 }
 
 pub fn by_name(n: &str) -> Option<&'static dyn Scenario> {
